@@ -52,6 +52,19 @@ def gen_tables(rnd):
 def mutate(rnd, cfg, stats):
     c = copy.deepcopy(cfg)
     svcs, rules = c["services"], c["rules"]
+    k = rnd.random()
+    if k < 0.12:
+        # the new file does not mention the section at all (or mentions it empty)
+        if rnd.random() < 0.5:
+            svcs.clear()
+            c["omit_xquery"] = rnd.random() < 0.8
+            stats.append("svc_section_omitted" if c["omit_xquery"] else "svc_section_emptied")
+        else:
+            rules.clear()
+            c["omit_class"] = rnd.random() < 0.8
+            stats.append("rule_section_omitted" if c["omit_class"] else "rule_section_emptied")
+        if rnd.random() < 0.6:
+            return c
     for _ in range(rnd.randint(1, 3)):
         k = rnd.random()
         if k < 0.15 and svcs:
@@ -210,7 +223,8 @@ class ReloadProfile:
                 if not any(n == "CONFREAD 0" for n in rep.notes):
                     out["rejected"] = True
                 ex.cfg = cfg
-                ex.w.cfg = json.loads(json.dumps(cfg))
+                ex.w.cfg = json.loads(json.dumps(dict(cfg, services=ex.w.cfg["services"], rules=ex.w.cfg.get("rules", {}))))
+                ex.w.reconfig(cfg["services"], json.loads(json.dumps(cfg["rules"])))
         if not ex.h.dead:
             out["config"], ok = config_report(ex)
             for p in plan["probes"]:
